@@ -98,6 +98,13 @@ def l2_monitor(spec, rec, obs):
             out.append("event %s handed to the run %d times" % (x, adds[x]))
         if adds[x] == 0 and not obs.done:
             out.append("event %s never handed to the run and the run did not end" % (x,))
+    # "unless the run ends first": an event a step SENT that was never handed to the run although an event sent LATER
+    # (by any step) was handed - the run had not ended when it should have arrived
+    sent = [(r["ev"], r["i"]) for r in rec.log if r["kind"] == "send"]
+    for k, x in enumerate(sent):
+        if adds[x] == 0 and any(adds[y] > 0 for y in sent[k + 1:]):
+            out.append("event %s sent by a step was never handed to the run although events sent after it were" % (x,))
+            break
     for r in rec.log:
         if r["kind"] == "enter" and r["step"] in acc and r["ev"] not in acc[r["step"]]:
             out.append("step %s entered with %s which it does not accept" % (r["step"], r["ev"]))
